@@ -311,6 +311,8 @@ def call_builtin(ex, name, args, kwargs, node):
     if name == "set":
         if not args:
             raise OutOfSubset("set() literal without declared key sort", node)
+        if isinstance(args[0], V.SetV):
+            return V.SetV(args[0].arr)        # set(s) of a set: a copy with the same elements
         raise OutOfSubset("set(iterable)", node)
     if name == "all" or name == "any":
         items = ex.concrete_items(args[0], node)
